@@ -22,7 +22,7 @@ from ..kit import sched as S
 from ..ref import codec as R
 from hypothesis import strategies as st
 
-from yowsup.layers import YowParallelLayer
+from yowsup.layers import YowParallelLayer, YowLayer, YowLayerEvent
 from yowsup.layers.interface import YowInterfaceLayer
 from yowsup.stacks import YowStackBuilder
 from yowsup.structs import ProtocolTreeNode
@@ -282,7 +282,121 @@ def run_key_fetch_fault(case):
     return out
 
 
+class _FailingTop(YowLayer):
+    """the layers above the network layer: take every read, fail on the chosen ones"""
+
+    def __init__(self):
+        super(_FailingTop, self).__init__()
+        self.got = []
+        self.events = []
+        self.fail_on = {}
+
+    def receive(self, data):
+        self.got.append(bytes(data))
+        exc = self.fail_on.get(bytes(data))
+        if exc is not None:
+            raise exc
+
+    def send(self, data):
+        self.toLower(data)
+
+    def onEvent(self, ev):
+        self.events.append(ev.getName())
+        return False
+
+
+class _HandlerFailed(Exception):
+    pass
+
+
+def run_socket_dispatcher(case):
+    """the blocking socket dispatcher (PROP_DISPATCHER = DISPATCHER_SOCKET) under the network layer, over scripted sockets: a
+    layer above fails while it handles something that was read.  Whatever the dispatcher does about it (carry on, or give the
+    connection up), the stack stays usable: a connection whose socket was closed has been announced as down, a later connect
+    request opens a new connection, what it reads is delivered and what is sent then goes to the new socket"""
+    import yowsup.layers.network.dispatcher.dispatcher_socket as DS
+    from yowsup.layers.network.layer import YowNetworkLayer
+    from ..kit import netkit, stackkit
+    out = Outcome()
+    excs = {"ValueError": ValueError("undecodable"), "KeyError": KeyError("handler"), "handler": _HandlerFailed("unsupported stanza"),
+            "AttributeError": AttributeError("callback"), "OSError": OSError(5, "from a layer above")}
+    out.label("socket_dispatcher")
+    socks = []
+    fail_on = {}
+    sent_expected = []
+    for ci, conn in enumerate(case["connections"]):
+        reads = []
+        for ri, how in enumerate(conn):
+            data = b"c%d-r%d" % (ci, ri)
+            reads.append(data)
+            if how:
+                fail_on[data] = excs[how]
+                out.label("upper_fails:" + how)
+        socks.append(netkit.ScriptedSocket(reads))
+    shim = netkit.SocketModuleShim(DS.socket, socks)
+    DS.socket = shim
+    # (other sub-cases of this check put a dispatcher double into the network layer's module: this one runs the real class)
+    import yowsup.layers.network.layer as netmod
+    saved_cls = netmod.SocketConnectionDispatcher
+    netmod.SocketConnectionDispatcher = DS.SocketConnectionDispatcher
+    try:
+        stack = stackkit.new_stack_class()((YowNetworkLayer, _FailingTop), reversed=False,
+                                           props={YowNetworkLayer.PROP_ENDPOINT: ("e1.whatsapp.net", 443),
+                                                  YowNetworkLayer.PROP_DISPATCHER: YowNetworkLayer.DISPATCHER_SOCKET})
+        net, top = stack.getLayer(0), stack.getLayer(1)
+        top.fail_on = fail_on
+        for ci, conn in enumerate(case["connections"]):
+            n_before = len(shim.handed_out)
+            ev_before = len(top.events)
+            raised = None
+            try:
+                # (connect() of this dispatcher returns when the connection is over)
+                stack.broadcastEvent(YowLayerEvent(YowNetworkLayer.EVENT_STATE_CONNECT))
+            except Exception as e:
+                raised = e
+                out.label("connect_request_raised")
+            stackkit.drain_detached(stack)
+            if len(shim.handed_out) != n_before + 1:
+                out.fail("wedged", "socket_dispatcher:connect_request_opens_no_connection",
+                         {"connection": ci + 1, "layer_state": net.state, "raised": repr(raised)[:120], "history": case["connections"][:ci + 1]})
+                return out
+            sk = shim.handed_out[-1]
+            evs = top.events[ev_before:]
+            ups = evs.count(YowNetworkLayer.EVENT_STATE_CONNECTED)
+            downs = evs.count(YowNetworkLayer.EVENT_STATE_DISCONNECTED)
+            if ups != 1:
+                out.fail("wedged", "socket_dispatcher:connected_announced_%d_times" % ups, {"connection": ci + 1})
+                return out
+            if sk.closed and downs != 1:
+                out.fail("wedged", "socket_dispatcher:socket_closed_but_disconnect_announced_%d_times" % downs,
+                         {"connection": ci + 1, "layer_state": net.state, "raised": repr(raised)[:120], "reads": conn})
+                return out
+            # everything read before the connection ended was handed upward once, in order
+            handed = [g for g in top.got if g.startswith(b"c%d-" % ci)]
+            expected = [b"c%d-r%d" % (ci, ri) for ri in range(len(conn))]
+            if handed != expected[:len(handed)] or (not any(conn) and handed != expected):
+                out.fail("wedged", "socket_dispatcher:reads_not_delivered_in_order", {"connection": ci + 1, "delivered": [h.decode() for h in handed]})
+                return out
+            # nothing is written to the connection that is over
+            wire_before = len(sk.wire)
+            try:
+                top.send(b"after-%d" % ci)
+            except Exception as e:
+                out.fail("wedged", "socket_dispatcher:send_after_the_connection_ended_raises:%s" % type(e).__name__, {"connection": ci + 1, "error": repr(e)[:200]})
+                return out
+            if len(sk.wire) != wire_before:
+                out.fail("wedged", "socket_dispatcher:written_to_a_closed_connection", {"connection": ci + 1})
+                return out
+        out.info = {"nt": any(any(c) for c in case["connections"][:-1])}
+        return out
+    finally:
+        DS.socket = shim._real
+        netmod.SocketConnectionDispatcher = saved_cls
+
+
 def run_case(case):
+    if case.get("sub") == "socket_dispatcher":
+        return run_socket_dispatcher(case)
     if case.get("sub") == "login_race":
         return run_login_race(case)
     if case.get("sub") == "key_fetch_fault":
@@ -622,6 +736,14 @@ def shrink_candidates(case):
         yield dict(case, choices=case["choices"][:len(case["choices"]) // 2])
     if case.get("sub") == "key_fetch_fault":
         return
+    if case.get("sub") == "socket_dispatcher":
+        conns = case["connections"]
+        for i in range(len(conns)):
+            if len(conns) > 1:
+                yield dict(case, connections=conns[:i] + conns[i + 1:])
+            for j in range(len(conns[i])):
+                yield dict(case, connections=conns[:i] + [conns[i][:j] + conns[i][j + 1:]] + conns[i + 1:])
+        return
     if case.get("sub") == "login_race":
         if case["frames"] > 2:
             yield dict(case, frames=case["frames"] - 1)
@@ -738,12 +860,16 @@ def plan(tier):
     quick = tier == "quick"
     kff = st.builds(lambda p, r, n: {"sub": "key_fetch_fault", "policies": p, "reconnect": r, "later": n},
                     st.lists(st.sampled_from(["error", "drop"]), min_size=1, max_size=3), st.booleans(), st.integers(1, 3))
+    how = st.sampled_from([None, None, None, "ValueError", "KeyError", "handler", "AttributeError", "OSError"])
+    sockd = st.lists(st.lists(how, min_size=0, max_size=5), min_size=2, max_size=4).map(lambda cs: {"sub": "socket_dispatcher", "connections": cs, "tasks": []})
     return {
         "shards": 16,
-        "enumerations": [("every_site", _enum_sites), ("login_race_basic", _enum_login_race), ("key_fetch_fault_basic", _enum_key_fetch_fault)],
+        "enumerations": [("every_site", _enum_sites), ("login_race_basic", _enum_login_race), ("key_fetch_fault_basic", _enum_key_fetch_fault),
+                         ("socket_dispatcher_basic", lambda: iter([{"sub": "socket_dispatcher", "tasks": [], "connections": [[None, h, None], [None], [h], [None, None]]}
+                                                                   for h in ("ValueError", "KeyError", "handler", "AttributeError", "OSError")]))],
         "exhaustive": ["every_site"],
         "strategies": [("faults", case_strategy(), 60 if quick else 4000), ("login_race", login_race_strategy(), 30 if quick else 2000),
-                       ("key_fetch_fault", kff, 16 if quick else 300)],
+                       ("key_fetch_fault", kff, 16 if quick else 300), ("socket_dispatcher", sockd, 40 if quick else 3000)],
         "shrink": "ddmin",
         "budget_s": 150 if quick else 1500,
     }
